@@ -12,7 +12,7 @@ var Profiles = map[string]Profile{
 	// spec lab, signatures: C06
 	"signatures": {Name: "signatures", MaxControllers: 3, MaxMethods: 6, MultiPkg: true, MultiFile: true, Hidden: true, Deprecated: true,
 		ParamIn: allIn, ParamTypeLevel: 2, Validators: true, Models: 1, CustomErrors: true, Responses: true, RouteStyle: "clean",
-		Descriptions: true, WireNames: true, CtxParams: true, AnyBytesTime: true, NestedSlices: true},
+		Descriptions: true, WireNames: true, CtxParams: true, AnyBytesTime: true, NestedSlices: true, GroupedParams: true, RepeatedErrCodes: true},
 	// spec lab, models: C07
 	"models": {Name: "models", MaxControllers: 2, MaxMethods: 5, MultiPkg: true, MultiFile: false, ParamIn: []string{"path", "query", "body"},
 		ParamTypeLevel: 2, Models: 2, FieldValidators: true, CustomErrors: true, RouteStyle: "clean", Maps: true, HiddenJSON: true,
@@ -23,10 +23,10 @@ var Profiles = map[string]Profile{
 	// router labs (compile-safe per the acceptance survey, DESIGN Appendix L): C02 C03 C05 C12
 	"router": {Name: "router", MaxControllers: 3, MaxMethods: 5, MultiPkg: true, MultiFile: true, Hidden: true, ParamIn: allIn, ParamTypeLevel: 2,
 		Validators: true, RuntimeValidators: true, Models: 1, CustomErrors: true, Responses: false, RouteStyle: "clean", CtlRouteParams: true, VerbPathReuse: true,
-		WireNames: true, CtxParams: true, Security: false, DashedWireNames: true},
+		WireNames: true, CtxParams: true, Security: false, DashedWireNames: true, GroupedParams: true},
 	// everything the spec emitters understand: C08, C11
 	"fullspec": {Name: "fullspec", MaxControllers: 3, MaxMethods: 6, MultiPkg: true, MultiFile: true, Hidden: true, Deprecated: true,
 		Security: true, DefaultSecP: 0.4, ParamIn: allIn, ParamTypeLevel: 2, Validators: true, FieldValidators: true, Models: 2,
 		CustomErrors: true, Responses: true, RouteStyle: "clean", CtlRouteParams: true, VerbPathReuse: true, Maps: true,
-		Descriptions: true, WireNames: true, CtxParams: true, AnyBytesTime: true, NestedSlices: true, TemplateTwins: true, OAuthSchemes: true},
+		Descriptions: true, WireNames: true, CtxParams: true, AnyBytesTime: true, NestedSlices: true, TemplateTwins: true, OAuthSchemes: true, ErrCodeIsSuccess: true, RepeatedErrCodes: true, GroupedParams: true},
 }
